@@ -241,6 +241,8 @@ structure RebaseFacts where
   onto : Sha
   /-- `<upstream>` as the pre-rebase hook receives it -/
   upstreamArg : Sha
+  /-- `<branch>` as the pre-rebase hook receives it (only when given on the command line) -/
+  branchArg : Option Sha := none
   interactive : Bool
   /-- `walk_commits_to_base(orig, merge_base(orig, newHead))`, oldest first -/
   chain : List Sha
@@ -325,7 +327,7 @@ def lastNew (head : Sha) (ps : List (Sha × Sha)) : Sha :=
 def rebaseStartEvs (r : RebaseFacts) (pull : Bool) : List HookEv :=
   let act : Action := if pull then .pull else .unset
   let cIn : Ctx := { rebaseDir := true, action := act }
-  [.preRebase (some r.upstreamArg) none { head := some r.orig, action := act },
+  [.preRebase (some r.upstreamArg) r.branchArg { head := some r.orig, action := act },
    .refTx .committed [⟨some r.orig, some r.onto, .head⟩] { cIn with head := some r.onto },
    .postCheckout (some r.orig) (some r.onto) true
       { cIn with head := some r.onto, wlPresent := r.wlAtOrig, todoEmpty := r.pairs.isEmpty }]
@@ -384,7 +386,8 @@ def fires : Op → List HookEv
      .refTx .committed [⟨some h, some h, .head⟩, ⟨some h, some h, .branch⟩]
         { head := some h, stashCount := cnt + 1, reflogReset := true }]
   | .stashPop h s cnt next dirty =>
-    [.refTx .prepared [⟨some s, next, .stash⟩] { head := some h, stashCount := cnt, dirty := dirty },
+    [.refTx .aborted [⟨none, none, .stash⟩] { head := some h, stashCount := cnt, dirty := dirty },
+     .refTx .prepared [⟨some s, next, .stash⟩] { head := some h, stashCount := cnt, dirty := dirty },
      .refTx .committed [⟨some s, next, .stash⟩] { head := some h, stashCount := cnt - 1, dirty := dirty }]
   | .stashApply _ _ => []
   | .mergeSquash src base =>
@@ -720,7 +723,7 @@ def wrapperEffs (j : List JEv) : Op → List Eff
       | .merge => if d then [.deleteWL o, .restoreVA o n] else [.renameWL o n wl]
       | .plain => [.renameWL o n wl]
   | .checkoutPath _ => [.dropPaths]
-  | .pullFF o n wl => [.fetchNotes, .renameWL o n wl]
+  | .pullFF o n wl => .fetchNotes :: (if o = n then [] else [.renameWL o n wl])
   | .pullRebase r =>
     .fetchNotes ::
     (if r.orig = r.newHead then []
@@ -785,6 +788,21 @@ def canonA : List Eff → List Eff
   | .renameWL _ _ false :: r => canonA r
   | e :: r => e :: canonA r
 
+/-- one canonical element: a handled journal event or a direct working-log action -/
+inductive Can
+  | ev (e : CEv)
+  | act (a : Eff)
+  deriving DecidableEq, Repr
+
+/-- everything of a run that reaches a shared handler, in order -/
+def canon : List Eff → List Can
+  | [] => []
+  | .handle e :: r => (match canonEv e with | some c => .ev c :: canon r | none => canon r)
+  | .log _ :: r | .fetchNotes :: r | .pushNotes :: r => canon r
+  | .checkpoint false :: r => canon r
+  | .renameWL _ _ false :: r => canon r
+  | e :: r => .act e :: canon r
+
 /-! ## Running sequences -/
 
 def runW : St → List Op → St × List Eff
@@ -804,7 +822,7 @@ def runB : St → List Op → St × List Eff
 /-- git-kernel consistency of the facts of one operation -/
 def RebaseFacts.wf (r : RebaseFacts) : Bool :=
   r.chain.getLast? == some r.orig && r.newChain.getLast? == some r.newHead && r.orig != r.newHead &&
-  !r.chain.isEmpty && !r.newChain.isEmpty
+  !r.chain.isEmpty && !r.newChain.isEmpty && !r.pairs.isEmpty
 
 /-- post-rewrite lists exactly the walked chains, pairwise: no commit reordered, squashed, dropped or skipped -/
 def RebaseFacts.aligned (r : RebaseFacts) : Bool :=
@@ -812,10 +830,11 @@ def RebaseFacts.aligned (r : RebaseFacts) : Bool :=
 
 def Op.wf : Op → Bool
   | .rebase r | .rebaseContinue r | .pullRebase r => r.wf
-  | .cherryPick h ps => !ps.isEmpty && lastNew h ps != h
-  | .cherryPickContinue h _ done res rest _ => lastNew h (done ++ res :: rest) != h
+  | .cherryPick h ps => !ps.isEmpty && lastNew h ps != h && ps.all (fun p => p.1 != p.2)
+  | .cherryPickContinue h _ done res rest _ =>
+    lastNew h (done ++ res :: rest) != h && (done ++ res :: rest).all (fun p => p.1 != p.2)
   | .commit p n _ => p != some n
-  | .amend o n _ _ => o != n
+  | .amend o n op _ => o != n && op != some o
   | _ => true
 
 /-- the facts under which both modes hand the shared handlers the same thing -/
